@@ -35,7 +35,12 @@ func (o Op) String() string {
 	case "stalesync":
 		return fmt.Sprintf("pod-ip-sync-of-deleted-incarnation(%d)", o.A)
 	case "delivercf":
+		if o.B > 0 {
+			return fmt.Sprintf("deliver-provider-call-%d-fails(%d)", o.B+1, o.A)
+		}
 		return fmt.Sprintf("deliver-provider-fails-once(%d)", o.A)
+	case "resynccf":
+		return fmt.Sprintf("resync-provider-call-%d-fails", o.A)
 	}
 	return fmt.Sprintf("%s(%d)", o.Kind, o.A)
 }
@@ -172,12 +177,19 @@ func (h *HistSys) Enabled(w *world.World) []Op {
 	if len(w.Pending) > 0 && h.Ops["deliver"] && h.Ops["cloudfail"] && w.Cloud != nil {
 		// the event is handled while the next provider call fails once (the release loop retries the unbind)
 		ops = append(ops, Op{Kind: "delivercf", A: 0})
+		if h.Ops["cloudfail2"] {
+			ops = append(ops, Op{Kind: "delivercf", A: 0, B: 1}) // the second provider call of the handler fails (pods with several IPs)
+		}
 	}
 	if len(w.Pending) > 0 && h.Ops["drop"] {
 		ops = append(ops, Op{Kind: "drop", A: 0})
 	}
 	if h.Ops["resync"] {
 		ops = append(ops, Op{Kind: "resync"})
+		if h.Ops["cloudfail2"] && w.Cloud != nil {
+			// a resync pass during which the first / the second provider call fails cleanly
+			ops = append(ops, Op{Kind: "resynccf", A: 1}, Op{Kind: "resynccf", A: 2})
+		}
 	}
 	if h.Ops["scale"] && h.Class.Kind != "bare" && h.Class.Kind != "barepfx" {
 		for n := 0; n <= h.NPods; n++ {
@@ -259,7 +271,7 @@ func (h *HistSys) Apply(w *world.World, op Op) Obs {
 		w.SetPhase(h.pod(op.A).Key(), corev1.PodSucceeded)
 	case "deliver", "delivercf":
 		if op.Kind == "delivercf" {
-			w.Cloud.FailNext()
+			w.Cloud.FailNth(op.B + 1)
 			defer func() { w.Cloud.FailAt = 0 }()
 		}
 		if op.A < len(w.Pending) && w.Pending[op.A].Pod != nil {
@@ -271,7 +283,11 @@ func (h *HistSys) Apply(w *world.World, op Op) Obs {
 		}
 	case "drop":
 		w.Pending = w.Pending[1:]
-	case "resync":
+	case "resync", "resynccf":
+		if op.Kind == "resynccf" {
+			w.Cloud.FailNth(op.A)
+			defer func() { w.Cloud.FailAt = 0 }()
+		}
 		if err := w.Resync(); err != nil {
 			o.Err = err.Error()
 		}
